@@ -571,7 +571,7 @@ def run_thorough(rep, srcdir=None, only=None):
 
 
 MANIFEST = {
-    "technique": "atomic state-word transition extraction (bit-level abstract domain incl. additive deltas) + path / loop-carried-value rules on the concurrent drain",
+    "technique": "atomic state-word transition extraction (bit-level abstract domain incl. additive deltas) + path / loop-carried-value rules on the concurrent drain + concrete evaluation of the barrier-flag plumbing of block objects over every (creation flag, caller flag) pair",
     "level": "every width-taking transition is checked for the reader-admission guard, the barrier upgrade and the last-reader hand-over for their "
              "protocol obligations, the drainer's owned-width bookkeeping on each hand-off edge, and the barrier flag plumbing of the API entry points; "
              "per-transition obligations hold for all interleavings; global width accounting over histories is not decided",
